@@ -4,6 +4,7 @@ import NLV.Driver.Registrars
 import NLV.Driver.Aio
 import NLV.Driver.Commands
 import NLV.Driver.DoneCallback
+import NLV.Driver.Lifecycle
 
 def main (args : List String) : IO UInt32 := do
   match args with
@@ -13,4 +14,5 @@ def main (args : List String) : IO UInt32 := do
   | ["aio"] => NLV.Driver.Aio.main; return 0
   | ["cmd"] => NLV.Driver.Cmd.main; return 0
   | ["done"] => NLV.Driver.Done.main; return 0
+  | ["life"] => NLV.Driver.Life.main; return 0
   | _ => IO.eprintln "usage: nlvmodel <model>"; return 2
